@@ -4,7 +4,8 @@ import XPathV.Lemmas.PredSem
 # C03 helpers — the positional predicate forms: parse tree, plan, value on both sides
 
 `PosForm` enumerates the forms of the property; `PosForm.ast` is the parse tree the parser
-produces, `PosForm.plan fi` the plan the builder makes of it (with `fi` the recorded `firstInput`).
+produces, `PosForm.plan fi` the plan the builder makes of it (with `fi` the builder's
+`positionInput`: inside a predicate the step being filtered, `predInput`).
 `specKeep` / `modelKeep` are the verdicts the oracle (`predTruth`) / the engine (`predDecision`)
 reach from position and size; `natKeep` is their reading on natural numbers, available under the
 side conditions `LitIsNat` / `NatEmb` on the abstract number algebra.
@@ -48,7 +49,7 @@ def ast : PosForm → Ast
   | last pfx => .call "last" pfx .anil
   | lastMinus pfx lex => .oper "-" (.call "last" pfx .anil) (.num lex)
 
-/-- the plan the builder makes of the predicate when `firstInput` is `fi` -/
+/-- the plan the builder makes of the predicate when `positionInput` (`predInput`, else `firstInput`) is `fi` -/
 def plan (fi : Plan) : PosForm → Plan
   | lit lex => .constNum lex
   | posCmp cop _ lex => .logical (opStr cop) (.func "position" fi .pnil) (.constNum lex)
